@@ -37,7 +37,7 @@ ASSUMPTIONS = ['line ends of the decoded text are compared modulo CRLF/LF '
                'after 7-bit conversion with an encoder']
 CELL_BUDGET_S = {'quick': 240, 'thorough': 2400}
 SAMPLE_P = 0.01
-MAX_WITNESSES = 6
+MAX_WITNESSES = 10
 
 HEADERS = [
     b'Subject: hello',
